@@ -19,6 +19,9 @@ Streams
          stylesheet PI, comments before / after the root, file encodings and BOM; JSON written
          with raw non-ASCII); "#comment" / "#pi" nodes inside the tree = XML comments and
          processing instructions at that place (the model is asked about the tree without them).
+         A few generated documents get a root that already declares format version 1.1 (what
+         FormatConverter feeds the converter as well): there the single value element of a Property
+         is the encoded value list of the 1.1 format and is kept as it is (`encoded_values`).
   hist   operation histories on ONE converter object: convert / write_to_file / str() in any
          order, refused calls (unknown backend), failing calls (wrong backend, target in a missing
          directory), the source rewritten between two calls, another converter working in
@@ -228,15 +231,47 @@ def descend(t):
     return out
 
 
-def spec_name(prev, n):
-    c = prev.count(n)
-    return n if c == 0 else "%s-%d" % (n, c + 1)
+SUFFIXED = "\x00numeric suffix:"
 
 
-def spec_prop(p, name):
+def spec_names(ns):
+    """The names a group of siblings with the source names ns has after the conversion: the first
+    sibling with a name keeps it, the k-th one gets '-k'.  Where that rule would give two siblings
+    the same name (a sibling is literally called 'p-2'), the property only says that the names are
+    made unique by a numeric suffix: the renamed siblings are then specified as SUFFIXED + name
+    (any number), and content_diff demands pairwise different sibling names in every case."""
+    def rule(mark):
+        out, prev = [], []
+        for n in ns:
+            c = prev.count(n)
+            prev.append(n)
+            out.append(n if c == 0 else (SUFFIXED + n if mark else "%s-%d" % (n, c + 1)))
+        return out
+    plain = rule(False)
+    return plain if len(set(plain)) == len(plain) else rule(True)
+
+
+def name_matches(want, got):
+    """want: a stripped name, or SUFFIXED + source name (stripped on the right only)"""
+    if not want.startswith(SUFFIXED):
+        return want == got
+    base = want[len(SUFFIXED):]
+    m = re.match(r"^(.*)-([1-9][0-9]*)$", got, re.S)
+    return m is not None and (base + "-" + m.group(2)).strip() == got
+
+
+def spec_prop(p, name, encoded=False):
     kids = p[3]
     values = [k for k in kids if k[0] == "value"]
     vals = [v[2].strip() for v in values if v[2].strip()]
+    if encoded and len(vals) == 1:
+        # the source already is a 1.1 document (what FormatConverter feeds the converter as well,
+        # see C17): its single value element holds the encoded list of the 1.1 format
+        try:
+            from odml.tools.xmlparser import from_csv
+            vals = [str(v) for v in from_csv(vals[0])]
+        except ImportError:
+            pass
     lifted = []
     for v in values:
         for d in descend(v):
@@ -265,35 +300,25 @@ def spec_prop(p, name):
             "id": spec_id(kids)}
 
 
-def spec_sec(s, name):
+def spec_sec(s, name, encoded=False):
     kids = s[3]
-    props = []
-    prev = []
-    for k in kids:
-        if k[0] == "property":
-            nm = find(k[3], "name")
-            if nm is None:
-                continue
-            props.append(spec_prop(k, spec_name(prev, nm[2])))
-            prev.append(nm[2])
+    named = [k for k in kids if k[0] == "property" and find(k[3], "name") is not None]
+    props = [spec_prop(k, name, encoded)
+             for k, name in zip(named, spec_names([find(k[3], "name")[2] for k in named]))]
     ft = lambda tag: (find(kids, tag) or T(tag))[2].strip()
     return {"name": name.strip(), "type": ft("type"), "definition": ft("definition"),
-            "id": spec_id(kids), "props": props, "secs": spec_secs(kids)}
+            "id": spec_id(kids), "props": props, "secs": spec_secs(kids, encoded)}
 
 
-def spec_secs(kids):
-    out = []
-    prev = []
-    for k in kids:
-        if k[0] == "section":
-            n = (find(k[3], "name") or T("name"))[2]
-            out.append(spec_sec(k, spec_name(prev, n)))
-            prev.append(n)
-    return out
+def spec_secs(kids, encoded=False):
+    secs = [k for k in kids if k[0] == "section"]
+    names = spec_names([(find(k[3], "name") or T("name"))[2] for k in secs])
+    return [spec_sec(k, name, encoded) for k, name in zip(secs, names)]
 
 
 def spec_doc(tree):
-    return {"id": spec_id(tree[3]), "secs": spec_secs(tree[3])}
+    encoded = dict((k, v) for k, v in tree[1]).get("version") == "1.1"
+    return {"id": spec_id(tree[3]), "secs": spec_secs(tree[3], encoded)}
 
 
 def dropped_items(tree, sec_keys, doc_keys):
@@ -380,8 +405,15 @@ def content_diff(want, got, path="doc", ids=None):
                 else:
                     for i, (a, b) in enumerate(zip(want[k], got[k])):
                         out += content_diff(a, b, "%s.%s[%d]" % (path, k, i), ids)
+                names = [x["name"] for x in got[k]]
+                if len(set(names)) != len(names):
+                    out.append("names: %s has %s with the same name: %s" % (path, k, names))
             elif k == "dtype" and want[k] == "":
                 pass            # no dtype in the source: the library infers one from the values
+            elif k == "name":
+                if not name_matches(want[k], got[k]):
+                    out.append("names: %s.name is %r, expected %r" % (
+                        path, got[k], want[k].replace(SUFFIXED, "a numeric suffix on ")))
             elif want[k] != got[k]:
                 kind = "values" if k == "values" else ("names" if k == "name" else "attrs")
                 out.append("%s: %s.%s is %r, expected %r" % (kind, path, k, got[k], want[k]))
@@ -411,7 +443,7 @@ VATTR_UNSUP = ["encoder", "checksum", "comment", "foo", "Unit"]
 class Gen(object):
     def __init__(self, rng, profile):
         self.r = rng
-        self.p = profile      # "wf": inside PlainValues / NoSuffixClash; "wild": everything
+        self.p = profile      # "wf": plain value texts, no sibling called 'p-2'; "wild": everything
         self.marker = 0
 
     # -- XML comments / processing instructions at any level --------------------
@@ -719,12 +751,14 @@ class C15(fw.Check):
     prop = "C15"
     lean_targets = ["OdmlModel.Props.C15"]
     obligations = ["C15." + t for t in [
-        "fold_values_partial", "fold_values_counterexample", "fold_values_not_full",
-        "fold_values_counterexample_quote", "fold_values_counterexample_blank",
-        "fold_values_counterexample_bracket", "lift_first_wins", "firstLift_spec",
-        "rename_sections_spec", "rename_properties_spec", "rename_unique_partial",
-        "rename_unique_properties_partial", "rename_unique_counterexample", "add_id_spec",
-        "id_kept_iff_valid", "propCleanup_vocab", "property_vocab", "section_vocab",
+        "fold_values_nonempty", "fold_values_none", "fold_values", "fold_values_full",
+        "fold_values_witness_commas", "fold_values_witness_quote", "fold_values_witness_blank",
+        "fold_values_witness_bracket", "fold_values_witness_newline", "fold_values_encoded_single",
+        "fold_values_witness_encoded", "fold_values_legacy_counterexample", "lift_first_wins",
+        "firstLift_spec", "rename_sections_spec", "rename_properties_spec", "rename_unique",
+        "rename_unique_properties", "rename_keeps_first", "rename_numeric_suffix",
+        "rename_default_when_free", "rename_unique_witness", "rename_legacy_counterexample",
+        "add_id_spec", "id_kept_iff_valid", "propCleanup_vocab", "property_vocab", "section_vocab",
         "document_vocab", "id_in_all_keys", "mapped_tags_in_vocab", "propCleanup_logs",
         "secCleanup_logs", "docCleanup_logs", "secCleanup_keeps", "docCleanup_keeps",
         "unnamed_property_logged", "convert_source_unchanged", "write_only_target", "convert_root",
@@ -734,8 +768,9 @@ class C15(fw.Check):
         "hand-written model lean/OdmlModel/Model/Conv.lean + ConvXml.lean, tied to /repo by this run",
         "harness/extract_tables.py (format._args tables regenerated into Lean on every run)",
         "Driver/C15.lean JSON glue; harness/framework.py, harness/c15.py",
-        "lxml text<->tree, json / PyYAML text<->dict, csv module (modelled and compared), uuid.UUID "
-        "(modelled and compared), uuid4 freshness",
+        "lxml text<->tree, json / PyYAML text<->dict, csv module (Py/Csv.lean + Model/XmlCsv.lean, the "
+        "model shared with C01; from_csv compared on every run by the stream csv, to_csv through every "
+        "converted value text), uuid.UUID (modelled and compared), uuid4 freshness",
     ]
     assumptions = [
         "documents of the modelled shape (Shape10): sections under root/sections, properties under "
@@ -743,9 +778,9 @@ class C15(fw.Check):
         "no repository / include elements (network), as the property says",
         "uuid.UUID modelled for ASCII hex texts (no '_', sign, blank or 0x inside a 32-character id)",
         "dict front ends: Document/Section/Property scalars are strings or null",
-        "XML comments / processing instructions are no content: the model is asked about the source "
-        "tree without them and they are ignored in the output; inside value elements, and for a StringIO "
-        "text with an encoding declaration, and for JSON / YAML under an ASCII locale the check is oracle-only",
+        "XML comments / processing instructions, the XML declaration of a StringIO text and the locale of "
+        "the process are no content: the model is asked about the parsed source tree without them and "
+        "comments / PIs are ignored in the output",
     ]
     rule = ("generated 1.0 documents: any tree shape up to depth 4, 0..4 value elements per Property "
             "with attributes on the first / later / all / random values, agreeing and conflicting, "
@@ -759,15 +794,13 @@ class C15(fw.Check):
             "read position) x backend spelling (lower / mixed case / left out); operation histories on one "
             "converter object (convert, write_to_file, str, refused and failing calls, source rewritten in "
             "between, another converter in between); JSON / YAML / XML files in a child process with an ASCII "
-            "locale and another hash seed; plus csv / uuid differential streams. Non-trivial = the conversion changes or drops something. "
+            "locale and another hash seed; the same generated documents with a root that already declares format "
+            "version 1.1; plus csv / uuid differential streams. Non-trivial = the conversion changes or drops something. "
             "distinct = distinct canonical JSON of the case.")
 
     # a history case runs up to 7 conversions, a locale case starts a child interpreter; the
     # machine is shared: generous limit per case (CPU seconds; wall limit is 6 times that)
     case_timeout = 60
-
-    def __init__(self):
-        self.flags = {}
 
     # -- generation ----------------------------------------------------------
     def generate(self, tier, rng):
@@ -807,6 +840,21 @@ class C15(fw.Check):
             cases.append({"stream": "uuid", "s": body})
         for f in ["res", "res.xml", "res.odml", "a.xml.txt", ".xml", "xml", "", "x.XML", "dir/out.odml"]:
             cases.append({"stream": "outname", "s": f})
+        cases += self.generate_current(40 if tier == "quick" else 800, rng)
+        return cases
+
+    @staticmethod
+    def generate_current(n, rng):
+        """conv cases whose root already declares the current format version (FormatConverter runs
+        the converter over 1.1 files as well): the text of a single value element is then the encoded
+        value list of a 1.1 Property and is kept as it is (`encoded_values`, fix 9cd3c9f)"""
+        cases = []
+        for i in range(n):
+            g = Gen(rng, "wild" if i % 2 else "wf")
+            tree = g.doc()
+            tree[1] = [["version", "1.1"]]
+            cases.append({"stream": "conv", "fmt": "XML", "input": "stringio" if i % 3 else "file", "tree": tree,
+                          "out": "res"})
         return cases
 
     @staticmethod
@@ -1042,25 +1090,6 @@ class C15(fw.Check):
         return bool(sf.get("pi") or sf.get("top") or sf.get("tail")) or \
             any(has_misc(case[k]) for k in ("tree", "tree2") if k in case)
 
-    @staticmethod
-    def value_has_misc(tree):
-        """a comment / PI somewhere inside a value element of a named Property"""
-        def in_prop(p):
-            if find(p[3], "name") is None:
-                return False
-            return any(k[0] == "value" and any(is_misc(d) for d in descend(k)) for k in p[3])
-
-        def walk(t):
-            if t[0] == "property":
-                return in_prop(t)
-            return any(walk(k) for k in t[3] if not is_misc(k))
-        return walk(tree)
-
-    @staticmethod
-    def declares_encoding(case):
-        d = (case.get("surface") or {}).get("decl")
-        return d is not None and d not in ("noenc", "bom")
-
     def impl_conv(self, case):
         from odml.tools.converters import VersionConverter
         from odml.tools.xmlparser import XMLReader, XML_HEADER
@@ -1265,14 +1294,11 @@ class C15(fw.Check):
             if case["fmt"] == "XML":
                 return [{"op": "convert", "fresh": FRESH, "tree": t} for t in obs["src_parsed"]]
             return [{"op": "dict", "fresh": FRESH, "doc": case[k]} for k in ("doc", "doc2")]
-        if case.get("locale") and case["fmt"] != "XML" and not self.ascii_source(case):
-            return []       # oracle only: the model has no locale (known finding, see finding_key)
         if case["fmt"] == "XML":
-            if self.value_has_misc(case["tree"]) or \
-                    (case["input"] == "stringio" and self.declares_encoding(case)):
-                # oracle only: the model has no comments inside value elements and no text
-                # encoding declarations (both are known findings, see finding_key)
-                return []
+            # comments / PIs (also inside value elements), the XML declaration of a StringIO text
+            # and the locale of the process are no content: the model is asked about the parsed
+            # source tree without them (the three former known findings are fixed: af40409,
+            # 603bf9e, 7b9559d)
             return [{"op": "convert", "fresh": FRESH, "tree": obs["src_parsed"]}]
         return [{"op": "dict", "fresh": FRESH, "doc": case["doc"]}]
 
@@ -1339,7 +1365,6 @@ class C15(fw.Check):
             return out
         if st == "hist":
             return self.compare_hist(case, obs, answers)
-        self.flags[fw.canon(case)] = {k: a[k] for k in ("wf", "plain", "noclash", "shape", "raises")}
         if not a["shape"]:
             return []           # outside the modelled shape (the generator does not go there)
         if obs.get("notes"):
@@ -1359,18 +1384,17 @@ class C15(fw.Check):
             out += ["written file: " + d for d in self.tree_diff(a["tree"], obs["written_tree"], "", set())]
         if obs.get("loaded") is not None:
             out += ["reader: " + d for d in content_diff(a["read"], obs["loaded"])]
+        if a["wf"] and a["read"] != a["spec"]:
+            # the composition of the per-stage theorems, evaluated by the driver: on a well-formed
+            # 1.0 document (WF10) the strict reader's view of the converted tree is the specified
+            # 1.0 content (content10) - since the fixes 9cd3c9f / a03a000 without further hypotheses
+            out.append("model: readDoc (convertTree x) differs from the specification content10 x "
+                       "on a WF10 document: %s vs %s" % (json.dumps(a["read"])[:600], json.dumps(a["spec"])[:600]))
         return out
-
-    @staticmethod
-    def merge_flags(answers):
-        fl = {k: all(a[k] for a in answers) for k in ("wf", "plain", "noclash", "shape")}
-        fl["raises"] = any(a["raises"] for a in answers)
-        return fl
 
     def compare_hist(self, case, obs, answers):
         """every delivered output of a history against the model's conversion of the source as it
         was at that call (weaker reading after an edit: or as it was at an earlier call)"""
-        self.flags[fw.canon(case)] = self.merge_flags(answers)
         out = []
         if not all(a["shape"] for a in answers) or any(a["raises"] for a in answers):
             return []
@@ -1582,38 +1606,8 @@ class C15(fw.Check):
                                "raised" if obs.get("raised") else ("loadfail" if obs.get("load_error") else "ok"))
         return (t, changed or True)
 
-    def finding_key(self, case, obs, failure):
-        kind = failure.split(":", 1)[0]
-        if case.get("stream") == "conv" and case.get("fmt") == "XML" and "harness_exception" not in obs:
-            # two narrow input shapes on which convert() itself raises (nothing else is observed then)
-            if failure == "load: conversion raised ValueError" and obs.get("raised") == "ValueError" and \
-                    case["input"] == "stringio" and self.declares_encoding(case):
-                return "C15-stringio-with-encoding-declaration"
-            if failure == "load: conversion raised TypeError" and obs.get("raised") == "TypeError" and \
-                    self.value_has_misc(case["tree"]):
-                return "C15-comment-inside-value-element"
-        if case.get("stream") == "conv" and case.get("locale") and case.get("fmt") in ("JSON", "YAML") and \
-                failure == "load: conversion raised UnicodeDecodeError" and \
-                obs.get("raised") == "UnicodeDecodeError" and not self.ascii_source(case):
-            return "C15-json-yaml-source-read-in-locale-encoding"
-        fl = self.flags.get(fw.canon(case))
-        if not fl and case.get("stream") in ("conv", "hist") and "harness_exception" not in obs:
-            # the search after a broken tie has not asked the model yet: the side conditions are
-            # always evaluated by the Lean driver, never re-implemented here
-            try:
-                reqs = self.model_requests(case, obs)
-                if not reqs and case["fmt"] == "XML":
-                    reqs = [{"op": "convert", "fresh": FRESH, "tree": obs["src_parsed"]}]
-                fl = self.flags[fw.canon(case)] = self.merge_flags(fw.Model(self.driver()).ask(reqs))
-            except Exception:
-                fl = None
-        if not fl:
-            return None
-        if not fl["plain"] and kind in ("values", "load"):
-            return "C15-values-joined-with-bare-commas"
-        if not fl["noclash"] and kind in ("names", "load", "tree"):
-            return "C15-suffix-collides-with-sibling-name"
-        return None
+    # no finding_key: the five defects found on the unchanged tree are fixed (known_findings.d/C15.json,
+    # status "fixed"); every violation of the property is reported as such
 
 
 if __name__ == "__main__":
